@@ -321,6 +321,51 @@ pub fn align(ctx: &Ctx) {
     }
 }
 
+/// bulk: bit-packed prototypes with enough points for five full-size data packets of the copy
+/// (the source is encoded independently, so a writer that cannot store it shows as a failed copy)
+pub fn bulk(ctx: &Ctx) {
+    let k = ctx.pick("prototype", 4);
+    let si = |bits: u32| m::Ty::Scaled { min: 0, max: (1i64 << bits) - 1, scale: 0.001, offset: 0.0 };
+    let proto: Vec<m::Rec> = match k {
+        0 => {
+            let mut p = crate::cat::xyz(si(12));
+            p.push(crate::cat::rec("cartesianInvalidState", m::Ty::Int { min: 0, max: 2 }));
+            p
+        }
+        1 => {
+            let mut p = crate::cat::xyz(si(10));
+            p.push(crate::cat::rec("intensity", m::Ty::Int { min: 0, max: 255 }));
+            p
+        }
+        2 => crate::cat::xyz(si(7)),
+        _ => {
+            let mut p = crate::cat::xyz(si(21));
+            p.push(crate::cat::rec("rowIndex", m::Ty::Int { min: 0, max: 4 }));
+            p
+        }
+    };
+    // natural capacity of the real writer for this prototype
+    let cap = {
+        let p = Program { guid: "g".into(), ops: vec![Op::Cloud(cloud(proto.clone(), 0, 1))], ..Default::default() };
+        run_program(Dev::empty(), &p, &ExecOpts::default()).caps.first().copied().unwrap_or(0)
+    };
+    if cap == 0 {
+        ctx.machinery_error("cannot probe the packet capacity".to_string());
+        return;
+    }
+    let n = 5 * cap + 3;
+    let mut scene = crate::scenes::scene(0);
+    scene.clouds.clear();
+    scene.images.clear();
+    let points = crate::cat::points_for(&proto, n, k + 1);
+    scene.clouds.push(m::Cloud { meta: m::CloudMeta { guid: Some("bulk".into()), ..Default::default() }, proto, points, records: n as u64, file_offset: 0 });
+    let Some((enc, _)) = model_file(ctx, &scene, Knobs::NONE) else { return };
+    ctx.describe(|| format!("copy of an independently encoded cloud of {n} points (5 natural packets of {cap} + 3), prototype variant {k}"));
+    if judge_copy(ctx, &enc.bytes, &|| format!("original: bulk cloud variant {k}, {n} points")) {
+        ctx.nontrivial();
+    }
+}
+
 /// every bundled testdata file that opens
 pub fn bundled(ctx: &Ctx) {
     let mut names: Vec<String> = std::fs::read_dir("/repo/testdata")
